@@ -267,6 +267,9 @@ func (n *Node) closeInc() {
 	inc.DB = nil
 }
 
+// Stop kills the incarnation and closes its database file (so that the file can be edited).
+func (n *Node) Stop() { n.shutdown() }
+
 func (n *Node) shutdown() {
 	n.Crash()
 	n.closeInc()
